@@ -19,7 +19,8 @@ pub assume_specification [<TokenReference as std::ops::Deref>::deref] (t: &Token
 pub assume_specification [TokenReference::token] (t: &TokenReference) -> (r: &Token)
     ensures *r == tr_token(*t);
 pub assume_specification [TokenReference::symbol] (s: &str) -> (r: Result<TokenReference, full_moon::tokenizer::TokenizerErrorType>)
-    ensures r is Ok;   // every literal passed by the formatter is a Lua symbol (class A; exercised by the test-suite)
+    ensures r is Ok,   // every literal passed by the formatter is a Lua symbol (class A; exercised by the test-suite)
+            r is Ok ==> !tok_open(r->Ok_0) && !tok_nl(r->Ok_0);   // a fresh symbol token has no trivia
 pub assume_specification [ContainedSpan::tokens] (c: &ContainedSpan) -> (r: (&TokenReference, &TokenReference))
     ensures *r.0 == span_open(*c), *r.1 == span_close(*c);
 pub assume_specification [ContainedSpan::new] (a: TokenReference, b: TokenReference) -> (r: ContainedSpan)
@@ -31,8 +32,6 @@ pub assume_specification [TokenType::tabs] (n: usize) -> (r: TokenType) ensures 
 // layout-only queries: no functional contract needed (results are unconstrained to the proofs)
 pub assume_specification [BinOp::precedence] (b: &BinOp) -> (r: u8);
 pub assume_specification [BinOp::is_right_associative] (b: &BinOp) -> (r: bool);
-pub assume_specification [BinOp::token] (b: &BinOp) -> (r: &TokenReference);
-pub assume_specification [UnOp::token] (b: &UnOp) -> (r: &TokenReference);
 pub assume_specification [<BinOp as Clone>::clone] (b: &BinOp) -> (r: BinOp) ensures r == *b;
 pub assume_specification [<Expression as Clone>::clone] (b: &Expression) -> (r: Expression) ensures r == *b;
 pub assume_specification [<TokenReference as Clone>::clone] (b: &TokenReference) -> (r: TokenReference) ensures r == *b;
